@@ -34,6 +34,8 @@ CLAIMS = {
          "as C11; forged ITEMS (a hash announced with corrupted content, which poisons the flash memory) are outside this property's quantifier over lists - see DESIGN.md F14"),
  "C16": ("notary", "model_checking", "TLC explores Notary.tla - propose / confirm / reject / challenge / waiting / history / balance / saved requests by an honest issuer, an honest receiver and a third key, with the form in which the signed bytes are presented (as issued or re-split), challenge expiry, the read throttle, and handlers split between cache removal and ledger call - for: contracts sealed only through an act of the receiver (modulo the TLA+ signature of known finding F11), at most once, transfers never parked; TLC-simulated and directed call sequences incl. bursts of identical concurrent requests are executed on the real server (real ledger, cache, flash, challenge store) and TLC judges every reply and the observed cache / ledger content",
          "trusted: handlers are called as Go methods (no TLS/gRPC), challenge expiry by sleeping past a 1 s longevity, TLC"),
+ "C15": ("shapes", "exploration", "RpcShapes.tla abstracts every request of the notary, gossip and webhook services to the class of each bytes / sub-message / address field and states the contract (a reply or an error, never a crash; unacceptable shapes are refused; a refusal adds nothing to ledger, awaiting cache or peer table); TLC enumerates the shape space (each field against a valid request, all pairs, the full product for SignedHash requests; triples in the thorough tier) and every enumerated shape is built concretely and sent to the real handlers under recover(), with TLC judging the recorded outcomes",
+         "trusted: handlers are called as Go methods with message structs built directly (nil sub-messages included) rather than decoded from bytes; coverage-guided mutation of serialized requests is not attempted; TLC"),
 }
 NA = {
  "C19": "encode/decode fidelity of third-party codecs: no state, interleaving or case analysis in this repository to specify; a TLA+ model of encode-then-decode is the identity function (DESIGN.md section 8)",
@@ -57,6 +59,8 @@ m = {"version": 1, "setup_cmd": "./check setup",
          "serves_properties": ["C11", "C12"], "kind_free_text": "TLA+ specification of gossip about gossip incl. adversarial relays; TLC over all small topologies; replay on a virtual network of real gossipers; TLC trace validation"},
         {"name": "notary", "path": "specs/Notary.tla specs/NotaryMC.tla specs/NotaryGen.tla specs/NotaryTrace.tla harness/cmd/drive/notarydrv.go runner/notarychk.py",
          "serves_properties": ["C16"], "kind_free_text": "TLA+ specification of the notary API's effects; TLC; call sequences replayed on the real server; TLC trace validation"},
+        {"name": "shapes", "path": "specs/RpcShapes.tla specs/RpcShapesTrace.tla harness/cmd/drive/shapesdrv.go runner/shapeschk.py",
+         "serves_properties": ["C15"], "kind_free_text": "TLA+ request-shape contract; TLC enumerates shapes; each executed on the real handlers; TLC judges outcomes"},
         {"name": "locks", "path": "specs/WalkLocks.tla specs/WalkLocksMC.tla specs/WalkLocksTrace.tla harness/cmd/drive/locks.go runner/locks.py",
          "serves_properties": ["C08"], "kind_free_text": "explicit TLA+ specification of locks, walker goroutines and channels; TLC safety + liveness; real-code fault enumeration judged by TLC"}],
      "checks": [], "not_applicable": [], "notes": "see DESIGN.md; known findings in known_findings.json"}
